@@ -10,6 +10,14 @@ CHECKS = {
    text="Generated packages (enumerated file-name universe: every combination of known/unknown OS, architecture and other words in the last three name positions; 60 000 constraint headers from a grammar of boolean expressions in //go:build, // +build, both, disagreeing, in 8 placements; yaegi:tags histories) are loaded by the real interpreter in import mode and in EvalTest mode; for every file the monitor observes whether its marker symbol is visible and compares with go/build.Context.MatchFile for the same name, content, GOOS/GOARCH, release and tags. thorough covers the whole header universe, quick a 6 000-header window chosen by the seed plus all names.",
    note="Trusted: go/build of the installed toolchain as the reference model. Compiler/cgo tags are not generated. Malformed //go:build lines (where the toolchain reports an error instead of selecting) are not generated. Known finding C17-F1 (+build in the package doc comment).",
    design="2/C17"),
+ "C09": dict(technique="runtime monitor on the verif step hook: freeze the interpreter at operation k, cancel, observe return / post-cancel operations and host ticks per goroutine / goroutine exit (goroutine profile)",
+   text="For every program of a family (busy loops, recursion, closures, methods, defers, host callbacks, goroutine trees, every blocking channel construct), every place its code can come from (same evaluation, earlier Eval, earlier EvalWithContext, imported source package) and every entry point (EvalWithContext, Compile+ExecuteWithContext, EvalPathWithContext), the step hook freezes all interpreted goroutines at operation k, the harness waits until all are parked, cancels, and requires: the call returns ctx.Err() while everything is frozen; after release no goroutine starts more than one further operation or causes more than one further host side effect; no goroutine stays parked in a channel operation. thorough: every k in 1..260 plus 12 seeded larger k per combination; quick: 14 seeded k per combination.",
+   note="Liveness restated as bounded progress (DESIGN 2/C09). Wall-clock appears only as generous watchdogs; a goroutine counts as leaked only if parked in a channel operation (reproduced on an isolated retry) or if it keeps starting operations. YAEGI_FAST_CHAN excluded. Known findings C09-F1..F3.",
+   design="2/C09"),
+ "C10": dict(technique="history monitor with executable model: define; hand function values to the host; interleave cancelled evaluations (deterministic through the step hook) with uses through Eval and direct host calls; compare every use with the model",
+   text="Histories define* ; (use | cancelled-eval)* over 14 definition kinds (named, recursive and void functions, value/pointer/stateful methods, closures in variables/maps/structs/slices, factory closures, method values), 4 use modes (first Eval after the cancellation, later Eval, host call before/after a further Eval) and 7 kinds of cancelled evaluation (busy loops frozen at operation k, goroutines, blocked receive/select, expired context, loop calling the definitions), enumerated for one and two cancellations plus seeded longer histories. Every use is compared with the model of the definition.",
+   note="The cancelled call itself is judged by C09. Known findings C10-F1 (closures dead for ever), C10-F2 (host-held values dead until the next Eval) mask those cells; named functions, methods and method values through Eval and through the host after a further Eval are guarded.",
+   design="2/C10"),
 }
 NOT_YET = {}
 def main():
